@@ -142,11 +142,35 @@ func slicing(r *lib.Rng, n int) ([]int, string) {
 	return out, name
 }
 
-// damage derives the written content from the signed one
-func damageContent(r *lib.Rng, signed []byte) ([]byte, string) {
+// weakDamageSomewhere applies a weak-hash-related damage (c18_weak.go) to one block of w
+func weakDamageSomewhere(r *lib.Rng, w []byte, kind string) (string, []c18Edit, bool) {
+	if len(w) == 0 {
+		return "", nil, false
+	}
+	nb := (len(w) + bs64 - 1) / bs64
+	j := r.Intn(nb)
+	if r.Chance(1, 3) {
+		j = nb - 1 // the (possibly short) last block
+	}
+	lo, hi := j*bs64, min((j+1)*bs64, len(w))
+	for _, k := range []string{kind, "121"} {
+		if tag, edits, ok := weakDamage(r, w, lo, hi, k); ok {
+			return tag, edits, true
+		}
+	}
+	return "", nil, false
+}
+
+// damage derives the written content from the signed one; weakBias raises the share of damages
+// that keep the weak hash of the damaged block
+func damageContent(r *lib.Rng, signed []byte, weakBias bool) ([]byte, string, []c18Edit) {
 	w := append([]byte(nil), signed...)
 	var tags []string
-	k := r.Intn(8)
+	var edits []c18Edit
+	k := r.Intn(10)
+	if weakBias && r.Chance(1, 2) {
+		k = 8 + r.Intn(2)
+	}
 	flip := func() {
 		if len(w) == 0 {
 			return
@@ -205,8 +229,23 @@ func damageContent(r *lib.Rng, signed []byte) ([]byte, string) {
 		n := c18Sizes[r.Intn(len(c18Sizes))]
 		w = structuredContent(r, n)
 		tags = append(tags, "replace")
+	case 8, 9: // a block that differs from the signed one but keeps (part of) its weak hash
+		tag, ed, ok := weakDamageSomewhere(r, w, c18WeakKinds[r.Intn(len(c18WeakKinds))])
+		if !ok { // block too small (< 3 bytes) or bytes at their bounds
+			flip()
+			break
+		}
+		tags, edits = append(tags, tag), ed
+		switch {
+		case k == 9 && r.Chance(1, 2):
+			flip() // an ordinary damage as well, possibly in the same block
+		case k == 9: // a second weak-hash-preserving block
+			if tag2, ed2, ok2 := weakDamageSomewhere(r, w, c18WeakKinds[r.Intn(4)]); ok2 {
+				tags, edits = append(tags, tag2), append(edits, ed2...)
+			}
+		}
 	}
-	return w, strings.Join(tags, ",")
+	return w, strings.Join(tags, ","), edits
 }
 
 func coqWrites(sizes []int) string {
@@ -389,7 +428,26 @@ func c18Drip(c *Ctx) error {
 
 // ---- ValidatingPool ----
 
+// c18Spec is one validating-pool case
+type c18Spec struct {
+	signed, written, other []byte
+	content, dmg, slname   string
+	edits                  []c18Edit
+	sizes                  []int
+	mode                   int // 0 error, 1 wound raw, 2 wound + aggregate
+	maxSize, fileIndex     int64
+	model                  bool // false: oracle only (content too irregular for a run-length encoded Coq term)
+	prefix                 string
+}
+
 func c18VPool(c *Ctx) error {
+	// fixed corpus first: inputs that a previously missed faulty variant needed (weak-hash-preserving
+	// damages), in every mode; their content does not depend on the seed
+	for _, s := range c18Corpus() {
+		if err := c18RunVP(c, s); err != nil {
+			return err
+		}
+	}
 	r := c.Rng.Fork()
 	n := c.N(70, 700)
 	for i := 0; i < n; i++ {
@@ -397,241 +455,421 @@ func c18VPool(c *Ctx) error {
 		if r.Chance(1, 4) {
 			size = r.Range(0, 3*bs64)
 		}
-		signed := structuredContent(r, size)
-		written, dmg := damageContent(r, signed)
-		sizes, slname := slicing(r, len(written))
-		mode := r.Intn(3) // 0 error, 1 wound raw, 2 wound + aggregate
-		maxSize := int64([]int{bs64, 2 * bs64, 3*bs64 - 1, 4 << 20}[r.Intn(4)])
-
-		// signature over a two-file container so that the file index matters
-		other := structuredContent(r, []int{0, 10, bs64 + 3}[r.Intn(3)])
-		fileIndex := int64(r.Intn(2))
-		files := [][]byte{other, signed}
-		if fileIndex == 0 {
-			files = [][]byte{signed, other}
+		s := &c18Spec{model: true, prefix: "vp", content: "structured"}
+		if r.Chance(1, 3) {
+			s.content = "randomish"
+			s.signed = randomishContent(r, size)
+		} else {
+			s.signed = structuredContent(r, size)
 		}
-		src := lib.NewMemPool(files)
-		hashes, err := pwr.ComputeSignature(context.Background(), src.Container, src, &state.Consumer{})
-		if err != nil {
+		s.written, s.dmg, s.edits = damageContent(r, s.signed, false)
+		s.sizes, s.slname = slicing(r, len(s.written))
+		s.mode = r.Intn(3)
+		s.maxSize = int64([]int{bs64, 2 * bs64, 3*bs64 - 1, 4 << 20}[r.Intn(4)])
+		s.other = structuredContent(r, []int{0, 10, bs64 + 3}[r.Intn(3)])
+		s.fileIndex = int64(r.Intn(2))
+		if err := c18RunVP(c, s); err != nil {
 			return err
 		}
-		sig := &pwr.SignatureInfo{Container: src.Container, Hashes: hashes}
-		inner := lib.NewMemPool(files)
-		vp := &pwr.ValidatingPool{Pool: inner, Container: src.Container, Signature: sig}
-		var got []*pwr.Wound
-		var done chan bool
-		if mode >= 1 {
-			vp.Wounds = make(chan *pwr.Wound)
-			done = make(chan bool)
-			go func() {
-				for w := range vp.Wounds {
-					got = append(got, w)
-				}
-				done <- true
-			}()
-			if mode == 2 {
-				vp.WoundsFilter = func(ws chan *pwr.Wound) chan *pwr.Wound { return pwr.AggregateWounds(ws, maxSize) }
-			}
+	}
+	// oracle only: fully random content (64 Ki runs per block would make the Coq term far too big),
+	// half of the damages weak-hash related
+	ro := c.Rng.Fork()
+	for i, n := 0, c.N(60, 600); i < n; i++ {
+		size := c18Sizes[ro.Intn(len(c18Sizes))]
+		if ro.Chance(1, 3) {
+			size = ro.Range(0, 3*bs64)
 		}
-		w, err := vp.GetWriter(fileIndex)
-		if err != nil {
+		s := &c18Spec{model: false, prefix: "vp-rand", content: "random"}
+		s.signed = ro.Bytes(size)
+		s.written, s.dmg, s.edits = damageContent(ro, s.signed, true)
+		s.sizes, s.slname = slicing(ro, len(s.written))
+		s.mode = ro.Intn(3)
+		s.maxSize = int64([]int{bs64, 2 * bs64, 3*bs64 - 1, 4 << 20}[ro.Intn(4)])
+		s.other = ro.Bytes([]int{0, 10, bs64 + 3}[ro.Intn(3)])
+		s.fileIndex = int64(ro.Intn(2))
+		if err := c18RunVP(c, s); err != nil {
 			return err
 		}
-		outcome := "Done"
-		okWrites := 0
-		pos := 0
-		for _, sz := range sizes {
-			nw, err := w.Write(written[pos : pos+sz])
-			pos += sz
-			if err != nil {
-				outcome = "Failed"
-				break
-			}
-			if nw != sz {
-				outcome = "Short"
-				break
-			}
-			okWrites++
-		}
-		closedOK := true
-		if outcome == "Done" {
-			if err := w.Close(); err != nil {
-				outcome = "Failed"
-				closedOK = false
-			}
-		} else if mode >= 1 {
-			w.Close()
-		}
-		_ = closedOK
-		if mode >= 1 {
-			close(vp.Wounds)
-			<-done
-		}
+	}
+	return nil
+}
 
-		sb := blocksOf(signed, bs64)
-		wb := blocksOf(written, bs64)
-		oracle := ""
-		class := fmt.Sprintf("vp/mode%d/%s", mode, strings.SplitN(dmg, "@", 2)[0])
-		input := map[string]interface{}{"signedSize": len(signed), "writtenSize": len(written), "damage": dmg, "slicing": slname, "writes": sizes, "mode": mode, "fileIndex": fileIndex, "maxSize": maxSize}
-		_ = input
-		if mode == 0 {
-			bad := -1
-			for j := range wb {
-				if j >= len(sb) || !bytes.Equal(sb[j], wb[j]) {
-					bad = j
-					break
-				}
-			}
-			innerBytes := inner.WrittenBytes(fileIndex)
-			if bad < 0 {
-				if outcome != "Done" {
-					oracle = "data equal to the signed content (or a block-aligned prefix) was rejected"
-				} else if !bytes.Equal(innerBytes, written) {
-					oracle = "inner pool did not receive the written bytes unchanged"
-				}
+// c18Corpus: weak-hash-preserving damages at fixed places in every mode, then fixed boundary cases
+func c18Corpus() []*c18Spec {
+	r := lib.NewRng(0xC18)
+	type scen struct {
+		size   int
+		rnd    bool
+		block  int // damaged block, -1 = last
+		kind   string
+		flip0  bool // plus an ordinary flip in block 0
+		slices int
+	}
+	scens := []scen{
+		{3*bs64 + 1234, false, 1, "121", false, 32768},
+		{3*bs64 + 1234, true, -1, "121", true, 1 << 20},
+		{2 * bs64, false, 1, "wrap", false, bs64 + 1},
+		{bs64 - 1, true, 0, "2swap", false, 5000},
+		{2*bs64 + 100, true, -1, "solve", false, bs64},
+		{bs64, false, 0, "solve", false, 16383},
+	}
+	var out []*c18Spec
+	for mode := 0; mode < 3; mode++ {
+		for _, sc := range scens {
+			s := &c18Spec{model: true, prefix: "vp-corpus", content: "structured", mode: mode, maxSize: 2 * bs64, slname: fmt.Sprint("fixed", sc.slices)}
+			if sc.rnd {
+				s.content = "randomish"
+				s.signed = randomishContent(r, sc.size)
 			} else {
-				if outcome != "Failed" {
-					oracle = fmt.Sprintf("block %d differs from the signed block but no call failed", bad)
-				} else if !bytes.Equal(innerBytes, written[:bad*bs64]) {
-					oracle = fmt.Sprintf("inner pool received %d bytes, want exactly the %d bytes before block %d", len(innerBytes), bad*bs64, bad)
-				} else {
-					endOff := (bad + 1) * bs64
-					wantOk := 0
-					if endOff > len(written) {
-						wantOk = len(sizes)
-					} else {
-						acc := 0
-						for _, sz := range sizes {
-							if acc+sz >= endOff {
-								break
-							}
-							acc += sz
-							wantOk++
-						}
-					}
-					if okWrites != wantOk {
-						oracle = fmt.Sprintf("%d Write calls succeeded before the failure, want %d", okWrites, wantOk)
-					}
+				s.signed = structuredContent(r, sc.size)
+			}
+			// keep the fill bytes away from 0/255 so that the edit is always possible
+			for i := range s.signed {
+				if s.signed[i] < 3 || s.signed[i] > 252 {
+					s.signed[i] = 100 + s.signed[i]%7
 				}
 			}
+			s.written = append([]byte(nil), s.signed...)
+			nb := (sc.size + bs64 - 1) / bs64
+			j := sc.block
+			if j < 0 {
+				j = nb - 1
+			}
+			var tags []string
+			if sc.flip0 {
+				s.written[3] ^= 1
+				tags = append(tags, "flip@3")
+			}
+			tag, ed, ok := weakDamage(r, s.written, j*bs64, min((j+1)*bs64, sc.size), sc.kind)
+			if !ok {
+				tag, ed, ok = weakDamage(r, s.written, j*bs64, min((j+1)*bs64, sc.size), "121")
+			}
+			if !ok {
+				continue
+			}
+			s.dmg, s.edits = strings.Join(append([]string{tag}, tags...), ","), ed
+			for rem := sc.size; rem > 0; rem -= sc.slices {
+				s.sizes = append(s.sizes, min(rem, sc.slices))
+			}
+			s.other = structuredContent(r, 10)
+			s.fileIndex = int64(mode % 2)
+			out = append(out, s)
+		}
+	}
+	// boundary classes of the quantifier text that the random stream reaches only now and then:
+	// a file that is empty in the signature but written to, extra bytes inside / up to the end of the
+	// last signed block, a differing block that is not the first whole block of a single large write
+	type bscen struct {
+		signed int
+		ext    int // bytes appended
+		flipAt int // -1: none
+		slices int
+		modes  []int
+	}
+	for _, sc := range []bscen{
+		{0, 1, -1, 1 << 20, []int{0, 1, 2}},
+		{0, bs64 + 1, -1, 32768, []int{0, 1}},
+		{100, 5, -1, 1 << 20, []int{0, 1, 2}},
+		{bs64 + 5, bs64 - 5, -1, bs64, []int{0, 1}},
+		{3 * bs64, 0, 2*bs64 + 7, 1 << 20, []int{0, 1}},
+		{3*bs64 + 9, 0, bs64, 1 << 20, []int{0, 2}},
+	} {
+		for _, mode := range sc.modes {
+			s := &c18Spec{model: true, prefix: "vp-corpus", content: "structured", mode: mode, maxSize: 2 * bs64, slname: fmt.Sprint("fixed", sc.slices)}
+			s.signed = structuredContent(r, sc.signed)
+			s.written = append([]byte(nil), s.signed...)
+			var tags []string
+			if sc.ext > 0 {
+				for i := 0; i < sc.ext; i++ {
+					s.written = append(s.written, 0x5a)
+				}
+				tags = append(tags, fmt.Sprintf("ext%d", sc.ext))
+			}
+			if sc.flipAt >= 0 {
+				s.written[sc.flipAt] ^= 0x10
+				tags = append(tags, fmt.Sprintf("flip@%d", sc.flipAt))
+			}
+			s.dmg = strings.Join(tags, ",")
+			for rem := len(s.written); rem > 0; rem -= sc.slices {
+				s.sizes = append(s.sizes, min(rem, sc.slices))
+			}
+			s.other = structuredContent(r, 10)
+			s.fileIndex = int64(mode % 2)
+			out = append(out, s)
+		}
+	}
+	return out
+}
+
+func c18RunVP(c *Ctx, s *c18Spec) error {
+	signed, written, other, sizes, mode, maxSize, fileIndex, dmg, slname := s.signed, s.written, s.other, s.sizes, s.mode, s.maxSize, s.fileIndex, s.dmg, s.slname
+	// signature over a two-file container so that the file index matters
+	files := [][]byte{other, signed}
+	if fileIndex == 0 {
+		files = [][]byte{signed, other}
+	}
+	src := lib.NewMemPool(files)
+	hashes, err := pwr.ComputeSignature(context.Background(), src.Container, src, &state.Consumer{})
+	if err != nil {
+		return err
+	}
+	sig := &pwr.SignatureInfo{Container: src.Container, Hashes: hashes}
+	inner := lib.NewMemPool(files)
+	vp := &pwr.ValidatingPool{Pool: inner, Container: src.Container, Signature: sig}
+	var got, raw []*pwr.Wound // raw: mode 2 only, what the validator handed to the aggregator
+	var done chan bool
+	if mode >= 1 {
+		vp.Wounds = make(chan *pwr.Wound)
+		done = make(chan bool)
+		go func() {
+			for w := range vp.Wounds {
+				got = append(got, w)
+			}
+			done <- true
+		}()
+		if mode == 2 {
+			// the markers are also recorded as they enter the aggregator (copies: it edits them in place)
+			vp.WoundsFilter = func(ws chan *pwr.Wound) chan *pwr.Wound {
+				agg := pwr.AggregateWounds(ws, maxSize)
+				in := make(chan *pwr.Wound)
+				go func() {
+					for w := range in {
+						raw = append(raw, &pwr.Wound{Kind: w.Kind, Index: w.Index, Start: w.Start, End: w.End})
+						agg <- w
+					}
+					close(agg)
+				}()
+				return in
+			}
+		}
+	}
+	w, err := vp.GetWriter(fileIndex)
+	if err != nil {
+		return err
+	}
+	outcome := "Done"
+	okWrites := 0
+	pos := 0
+	for _, sz := range sizes {
+		nw, err := w.Write(written[pos : pos+sz])
+		pos += sz
+		if err != nil {
+			outcome = "Failed"
+			break
+		}
+		if nw != sz {
+			outcome = "Short"
+			break
+		}
+		okWrites++
+	}
+	closedOK := true
+	if outcome == "Done" {
+		if err := w.Close(); err != nil {
+			outcome = "Failed"
+			closedOK = false
+		}
+	} else if mode >= 1 {
+		w.Close()
+	}
+	_ = closedOK
+	if mode >= 1 {
+		close(vp.Wounds)
+		<-done
+	}
+
+	sb := blocksOf(signed, bs64)
+	wb := blocksOf(written, bs64)
+	oracle := ""
+	class := fmt.Sprintf("%s/mode%d/%s", s.prefix, mode, strings.SplitN(dmg, "@", 2)[0])
+	input := map[string]interface{}{"signedSize": len(signed), "writtenSize": len(written), "content": s.content, "damage": dmg, "slicing": slname, "writes": sizes, "mode": mode, "fileIndex": fileIndex, "maxSize": maxSize}
+	if len(s.edits) > 0 {
+		input["edits"] = s.edits // bytes changed by a weak-hash related damage: offset in the file, signed value, written value
+	}
+	// oracle-only cases carry no Coq term: the pipeline then skips the model comparison
+	emit := func(cs *lib.Case) {
+		if !s.model {
+			cs.Group, cs.Coq = "", ""
+			cs.Key = lib.Digest(append(append([]byte(fmt.Sprint(input)), signed...), written...))
+		}
+		c.Out.Emit(cs)
+	}
+	if mode == 0 {
+		bad := -1
+		for j := range wb {
+			if j >= len(sb) || !bytes.Equal(sb[j], wb[j]) {
+				bad = j
+				break
+			}
+		}
+		innerBytes := inner.WrittenBytes(fileIndex)
+		if bad < 0 {
+			if outcome != "Done" {
+				oracle = "data equal to the signed content (or a block-aligned prefix) was rejected"
+			} else if !bytes.Equal(innerBytes, written) {
+				oracle = "inner pool did not receive the written bytes unchanged"
+			}
+		} else {
+			if outcome != "Failed" {
+				oracle = fmt.Sprintf("block %d differs from the signed block but no call failed", bad)
+			} else if !bytes.Equal(innerBytes, written[:bad*bs64]) {
+				oracle = fmt.Sprintf("inner pool received %d bytes, want exactly the %d bytes before block %d", len(innerBytes), bad*bs64, bad)
+			} else {
+				endOff := (bad + 1) * bs64
+				wantOk := 0
+				if endOff > len(written) {
+					wantOk = len(sizes)
+				} else {
+					acc := 0
+					for _, sz := range sizes {
+						if acc+sz >= endOff {
+							break
+						}
+						acc += sz
+						wantOk++
+					}
+				}
+				if okWrites != wantOk {
+					oracle = fmt.Sprintf("%d Write calls succeeded before the failure, want %d", okWrites, wantOk)
+				}
+			}
+		}
+		cs := &lib.Case{Group: "vperr", Class: class, Nontrivial: len(sizes) >= 2 && len(written) > bs64,
+			Input: input, Obs: map[string]interface{}{"outcome": outcome, "okWrites": okWrites, "innerBytes": len(innerBytes)}, Oracle: oracle}
+		if s.model {
 			var sk []string
 			for _, b := range inner.Written[fileIndex] {
 				sk = append(sk, lib.ToRle(b).Coq())
 			}
-			c.Out.Emit(&lib.Case{Group: "vperr", Class: class, Nontrivial: len(sizes) >= 2 && len(written) > bs64,
-				Input: input, Obs: map[string]interface{}{"outcome": outcome, "okWrites": okWrites, "innerBytes": len(innerBytes)}, Oracle: oracle,
-				Coq: fmt.Sprintf("($ID%%N, %s, %s, %s, (%s, %d%%nat, %s))", lib.ToRle(signed).Coq(), lib.ToRle(written).Coq(), coqWrites(sizes),
-					map[string]string{"Done": "Done", "Failed": "Failed", "Short": "OutOfFuel"}[outcome], okWrites, lib.CoqList(sk))})
-			continue
+			cs.Coq = fmt.Sprintf("($ID%%N, %s, %s, %s, (%s, %d%%nat, %s))", lib.ToRle(signed).Coq(), lib.ToRle(written).Coq(), coqWrites(sizes),
+				map[string]string{"Done": "Done", "Failed": "Failed", "Short": "OutOfFuel"}[outcome], okWrites, lib.CoqList(sk))
 		}
-		// wound mode oracle
-		if outcome != "Done" {
-			oracle = "wound mode must not fail a write: " + outcome
-		}
-		// expected raw markers
-		type mark struct {
-			file       bool
-			start, end int64
-		}
-		var exp []mark
-		for j := range wb {
-			st := int64(j) * bs64
-			if j < len(sb) {
-				en := st + int64(len(sb[j]))
-				exp = append(exp, mark{!bytes.Equal(sb[j], wb[j]), st, en})
-			} else {
-				exp = append(exp, mark{true, st, -1}) // beyond the signed blocks: a wound, extent unspecified
-			}
-		}
-		if oracle == "" {
-			if mode == 1 {
-				if len(got) != len(exp) {
-					oracle = fmt.Sprintf("%d markers for %d written blocks", len(got), len(exp))
-				}
-				for j := 0; oracle == "" && j < len(exp); j++ {
-					g := got[j]
-					if g.Index != fileIndex {
-						oracle = fmt.Sprintf("marker %d names file %d, want %d", j, g.Index, fileIndex)
-					} else if (g.Kind == pwr.WoundKind_FILE) != exp[j].file || (g.Kind != pwr.WoundKind_FILE && g.Kind != pwr.WoundKind_CLOSED_FILE) {
-						oracle = fmt.Sprintf("block %d: kind %s but differs=%v", j, g.Kind, exp[j].file)
-					} else if g.Start != exp[j].start || (exp[j].end >= 0 && g.End != exp[j].end) {
-						oracle = fmt.Sprintf("block %d: marker [%d,%d) want [%d,%d)", j, g.Start, g.End, exp[j].start, exp[j].end)
-					}
-				}
-			} else {
-				// aggregated: order by offset, healthy markers untouched, union of FILE ranges below the signed length preserved
-				cover := func(ms []mark) []bool {
-					cv := make([]bool, len(sb))
-					for _, m := range ms {
-						if m.file && m.end >= 0 {
-							for b := m.start / bs64; b*bs64 < m.end && int(b) < len(cv); b++ {
-								cv[b] = true
-							}
-						}
-					}
-					return cv
-				}
-				var gm []mark
-				last := int64(-1)
-				nClosed, nClosedExp := 0, 0
-				for _, g := range got {
-					if g.Index != fileIndex {
-						oracle = "marker for another file"
-					}
-					if g.Start < last {
-						oracle = fmt.Sprintf("markers out of offset order at %d", g.Start)
-					}
-					last = g.Start
-					if g.Kind == pwr.WoundKind_CLOSED_FILE {
-						nClosed++
-					} else if g.Kind == pwr.WoundKind_FILE {
-						gm = append(gm, mark{true, g.Start, g.End})
-					} else {
-						oracle = "unexpected kind " + g.Kind.String()
-					}
-				}
-				for _, e := range exp {
-					if !e.file {
-						nClosedExp++
-					}
-				}
-				if oracle == "" && nClosed != nClosedExp {
-					oracle = fmt.Sprintf("%d healthy markers, want %d", nClosed, nClosedExp)
-				}
-				if oracle == "" {
-					a, b := cover(gm), cover(exp)
-					for j := range a {
-						if a[j] != b[j] {
-							oracle = fmt.Sprintf("after aggregation block %d wounded=%v, want %v", j, a[j], b[j])
-							break
-						}
-					}
-				}
-				// wounds beyond the signed blocks must survive too
-				if oracle == "" && len(wb) > len(sb) {
-					found := false
-					for _, m := range gm {
-						if m.end > int64(len(sb))*bs64 || m.start >= int64(len(sb))*bs64 {
-							found = true
-						}
-					}
-					if !found {
-						oracle = "blocks beyond the signed count produced no wound"
-					}
-				}
-			}
-		}
-		var gs []string
-		for _, g := range got {
-			gs = append(gs, woundCoq(g))
-		}
-		agg := "None"
-		if mode == 2 {
-			agg = "(Some " + lib.CoqZ(maxSize) + ")"
-		}
-		c.Out.Emit(&lib.Case{Group: "vpwnd", Class: class, Nontrivial: len(sizes) >= 2 && len(written) > bs64,
-			Input: input, Obs: map[string]interface{}{"outcome": outcome, "wounds": woundsJ(got)}, Oracle: oracle,
-			Coq: fmt.Sprintf("($ID%%N, %s, %s, %s, %s, %s, %s)", lib.CoqZ(fileIndex), lib.ToRle(signed).Coq(), lib.ToRle(written).Coq(), coqWrites(sizes), agg, lib.CoqList(gs))})
+		emit(cs)
+		return nil
 	}
+	// wound mode oracle
+	if outcome != "Done" {
+		oracle = "wound mode must not fail a write: " + outcome
+	}
+	// expected raw markers
+	type mark struct {
+		file       bool
+		start, end int64
+	}
+	var exp []mark
+	for j := range wb {
+		st := int64(j) * bs64
+		if j < len(sb) {
+			en := st + int64(len(sb[j]))
+			exp = append(exp, mark{!bytes.Equal(sb[j], wb[j]), st, en})
+		} else {
+			exp = append(exp, mark{true, st, -1}) // beyond the signed blocks: a wound, extent unspecified
+		}
+	}
+	checkRaw := func(got []*pwr.Wound) string {
+		if len(got) != len(exp) {
+			return fmt.Sprintf("%d markers for %d written blocks", len(got), len(exp))
+		}
+		for j := 0; j < len(exp); j++ {
+			g := got[j]
+			if g.Index != fileIndex {
+				return fmt.Sprintf("marker %d names file %d, want %d", j, g.Index, fileIndex)
+			} else if (g.Kind == pwr.WoundKind_FILE) != exp[j].file || (g.Kind != pwr.WoundKind_FILE && g.Kind != pwr.WoundKind_CLOSED_FILE) {
+				return fmt.Sprintf("block %d: kind %s but differs=%v", j, g.Kind, exp[j].file)
+			} else if g.Start != exp[j].start || (exp[j].end >= 0 && g.End != exp[j].end) {
+				return fmt.Sprintf("block %d: marker [%d,%d) want [%d,%d)", j, g.Start, g.End, exp[j].start, exp[j].end)
+			}
+		}
+		return ""
+	}
+	if oracle == "" {
+		if mode == 1 {
+			oracle = checkRaw(got)
+		} else if e := checkRaw(raw); e != "" {
+			oracle = "before aggregation: " + e
+		} else {
+			// aggregated: order by offset, healthy markers untouched, union of FILE ranges below the signed length preserved
+			cover := func(ms []mark) []bool {
+				cv := make([]bool, len(sb))
+				for _, m := range ms {
+					if m.file && m.end >= 0 {
+						for b := m.start / bs64; b*bs64 < m.end && int(b) < len(cv); b++ {
+							cv[b] = true
+						}
+					}
+				}
+				return cv
+			}
+			var gm []mark
+			last := int64(-1)
+			nClosed, nClosedExp := 0, 0
+			for _, g := range got {
+				if g.Index != fileIndex {
+					oracle = "marker for another file"
+				}
+				if g.Start < last {
+					oracle = fmt.Sprintf("markers out of offset order at %d", g.Start)
+				}
+				last = g.Start
+				if g.Kind == pwr.WoundKind_CLOSED_FILE {
+					nClosed++
+				} else if g.Kind == pwr.WoundKind_FILE {
+					gm = append(gm, mark{true, g.Start, g.End})
+				} else {
+					oracle = "unexpected kind " + g.Kind.String()
+				}
+			}
+			for _, e := range exp {
+				if !e.file {
+					nClosedExp++
+				}
+			}
+			if oracle == "" && nClosed != nClosedExp {
+				oracle = fmt.Sprintf("%d healthy markers, want %d", nClosed, nClosedExp)
+			}
+			if oracle == "" {
+				a, b := cover(gm), cover(exp)
+				for j := range a {
+					if a[j] != b[j] {
+						oracle = fmt.Sprintf("after aggregation block %d wounded=%v, want %v", j, a[j], b[j])
+						break
+					}
+				}
+			}
+			// wounds beyond the signed blocks must survive too: each one handed to the aggregator lies
+			// inside an aggregated wound.  (Their extent is whatever the validator chose - for a signed
+			// size that is an exact block multiple it is empty, and an empty wound right after a wounded
+			// last signed block is legitimately absorbed by that wound.)
+			for j := len(sb); oracle == "" && j < len(raw); j++ {
+				found := false
+				for _, m := range gm {
+					if m.start <= raw[j].Start && raw[j].End <= m.end {
+						found = true
+					}
+				}
+				if !found {
+					oracle = fmt.Sprintf("wound [%d,%d) of block %d beyond the signed count is in no aggregated wound", raw[j].Start, raw[j].End, j)
+				}
+			}
+		}
+	}
+	var gs []string
+	for _, g := range got {
+		gs = append(gs, woundCoq(g))
+	}
+	agg := "None"
+	if mode == 2 {
+		agg = "(Some " + lib.CoqZ(maxSize) + ")"
+	}
+	cs := &lib.Case{Group: "vpwnd", Class: class, Nontrivial: len(sizes) >= 2 && len(written) > bs64,
+		Input: input, Obs: map[string]interface{}{"outcome": outcome, "wounds": woundsJ(got)}, Oracle: oracle}
+	if mode == 2 {
+		cs.Obs.(map[string]interface{})["beforeAggregation"] = woundsJ(raw)
+	}
+	if s.model {
+		cs.Coq = fmt.Sprintf("($ID%%N, %s, %s, %s, %s, %s, %s)", lib.CoqZ(fileIndex), lib.ToRle(signed).Coq(), lib.ToRle(written).Coq(), coqWrites(sizes), agg, lib.CoqList(gs))
+	}
+	emit(cs)
 	return nil
 }
